@@ -460,7 +460,9 @@ class FactBase:
             return hits[0]
         if not hits:
             if required:
-                raise AnchorMissing("function anchor not found: %s" % suffix)
+                # the anchor is not there (renamed, split into helpers, inlined): not an error by itself.  Rules that evaluate
+                # behaviour from the entry points never touch it; a shape rule that does raises AnchorMissing at that point.
+                return MissingFunc(suffix)
             return None
         raise AnchorMissing("function anchor ambiguous: %s -> %s" % (suffix, [h.name for h in hits]))
 
@@ -589,6 +591,22 @@ class FactBase:
 
 class AnchorMissing(Exception):
     pass
+
+
+class MissingFunc:
+    """stands for a function that no longer exists under its pinned name: its `name` matches no callee; touching anything else
+    raises AnchorMissing (which a guarded fallback rule turns into UNDECIDED)"""
+    missing = True
+
+    def __init__(self, suffix):
+        object.__setattr__(self, "_suffix", suffix)
+        object.__setattr__(self, "name", "\0absent:" + suffix)
+
+    def __bool__(self):
+        return False
+
+    def __getattr__(self, k):
+        raise AnchorMissing("function anchor not found: %s" % object.__getattribute__(self, "_suffix"))
 
 
 def rv_operands(rv):
